@@ -348,16 +348,17 @@ func dispatch(reqT, respT [256]string) {
 func framing(structs []smbgen.Struct) {
 	for _, s := range structs {
 		rels := smbgen.Relations(s.Name)
-		nIter := r.Pick(12, 1500)
+		nIter := r.Pick(70, 1500)
 		for it := 0; it < nIter; it++ {
 			rng := r.Rand(fmt.Sprintf("framing|%s|%d", s.Name, it))
 			mode := smbgen.ModeRandom
 			if it < 4 {
 				mode = smbgen.Mode(it)
 			}
-			maxLen := []int{6, 40, 255, 256, 700, 3000}[it%6]
+			maxLen := []int{6, 40, 255, 256, 700, 3000, -1}[it%7] // -1: one buffer around or beyond 2^15 bytes
 			c := s.New()
 			smbgen.Fill(c, rels, rng, mode, maxLen)
+			smbgen.AlignPads(c, rels)
 			m := message.NewMessage()
 			m.Header.MID = uint16(rng.Uint32())
 			m.Header.TID = uint16(rng.Uint32())
@@ -375,6 +376,10 @@ func framing(structs []smbgen.Struct) {
 			r.Eval(1)
 			if p {
 				r.Violation(s.Name+":message.Marshal:panic", fmt.Sprintf("%v at %s", pv, mon.TopLibFrame(st)), cs)
+				continue
+			}
+			if err != nil && maxLen < 0 && smbgen.ByteTotal(reflect.ValueOf(c).Elem()) > 65000 {
+				r.Count("big_assignments_refused_over_64k", 1)
 				continue
 			}
 			if err != nil {
@@ -416,8 +421,11 @@ func framing(structs []smbgen.Struct) {
 			p, pv, st = mon.Guard(func() { err = m2.Unmarshal(wire) })
 			r.Eval(1)
 			if p || err != nil {
-				// decode failures of a structure's own body are C04's subject
-				r.Count("unmarshal_refused", 1)
+				if p {
+					r.Violation(s.Name+":decode:panic", fmt.Sprintf("Message.Unmarshal of the library's own encoding panicked: %v at %s", pv, mon.TopLibFrame(st)), cs)
+				} else {
+					r.Violation(s.Name+":decode:refused", "Message.Unmarshal refuses the library's own encoding of an internally consistent "+s.Name+": "+err.Error(), cs)
+				}
 			} else {
 				if got := reflect.TypeOf(m2.Command).Elem().Name(); got != s.Name && !(strings.HasPrefix(s.Name, "WriteRaw") && strings.HasPrefix(got, "WriteRaw")) {
 					r.Violation(s.Name+":decode:wrong-type", "decoded as "+got, cs)
